@@ -6,6 +6,6 @@ for id in "$@"; do for src in /tmp/wt/C$id/$sub/m*; do [ -f $src/patch.diff ] ||
 import json,sys,os
 d,pid=sys.argv[1:3]
 notes=open(os.path.join(d,'notes.md')).read() if os.path.exists(os.path.join(d,'notes.md')) else ''
-json.dump({"property":pid,"source":"independent sub-agent given only the property text and a scratch worktree (wave 4)","needs_to_manifest":"see notes.md","notes_excerpt":notes[:700]}, open(os.path.join(d,'meta.json'),'w'), indent=1)
+json.dump({"property":pid,"source":"independent sub-agent given only the property text and a scratch worktree (wave 5)","needs_to_manifest":"see notes.md","notes_excerpt":notes[:700]}, open(os.path.join(d,'meta.json'),'w'), indent=1)
 PY
 done; git -C /repo worktree remove --force /tmp/wt/C$id; done; git -C /repo worktree prune; ls seeded | wc -l
